@@ -13,6 +13,7 @@ penman.__main__, which look ``open`` up as a global.
 
 import errno
 import io
+import os
 
 
 class Plan:
@@ -175,23 +176,68 @@ def text_writer(plan: Plan, counters, encoding='utf-8', newline=None, name='<sim
                             line_buffering=line_buffering), raw
 
 
+_ROOTS = []
+
+
+def cleanup_all():
+    """Remove the scratch directories of every SimFS created so far (called after each run)."""
+    import shutil
+    while _ROOTS:
+        shutil.rmtree(_ROOTS.pop(), ignore_errors=True)
+
+
 class SimFS:
-    """Path -> bytes, with one I/O plan per path (default: benign)."""
+    """Path -> bytes, with one I/O plan per path (default: benign).
+
+    The property code names files '/sim/<name>'.  Every SimFS also owns a real scratch directory in which each
+    file it is given exists with the same content, and penman is handed the *real* path (``fs.real('/sim/x')``).
+    Code that opens files through the shadowed ``open`` gets the simulated device (chunking, EINTR, error faults);
+    code that reaches the file system any other way (pathlib methods, os.path tests, fileinput, an opener) finds a
+    real file - without fault injection, but it is judged by what it reads and writes, not by the narrowness of the
+    seam."""
 
     def __init__(self, counters=None):
+        import tempfile
         self.files = {}
         self.plans = {}
         self.k = counters or Counters()
         self.opened = []          # (path, mode) history
         self.writers = {}
+        self._root = None
+
+    @property
+    def root(self):
+        """The scratch directory, created when the first file or path is asked for."""
+        if self._root is None:
+            import tempfile
+            self._root = tempfile.mkdtemp(prefix='vsim-fs-')
+            _ROOTS.append(self._root)
+        return self._root
+
+    def real(self, path):
+        """'/sim/x' -> the real path handed to the code under test (anything else is returned as it is)."""
+        path = str(path)
+        if path.startswith('/sim/'):
+            return os.path.join(self.root, path[5:])
+        return path
+
+    def _key(self, path):
+        path = str(path)
+        if self._root is not None and path.startswith(self._root + os.sep):
+            return '/sim/' + path[len(self.root) + 1:]
+        return path
 
     def put(self, path, data: bytes, plan=None):
+        path = self._key(path)
         self.files[path] = data
         if plan is not None:
             self.plans[path] = plan
+        if path.startswith('/sim/'):
+            with open(self.real(path), 'wb') as fh:
+                fh.write(bytes(data))
 
     def plan_for(self, path):
-        p = self.plans.get(path)
+        p = self.plans.get(self._key(path))
         return p if isinstance(p, Plan) else Plan(p)
 
     def open(self, file, mode='r', buffering=-1, encoding=None, errors=None, newline=None,
@@ -200,7 +246,7 @@ class SimFS:
         text or binary ('b'), so that code which opens its files differently than the pinned tree does (binary
         handle plus its own encoding, append, exclusive creation) is judged by what it writes, not by a
         limitation of the simulated file system.  *opener* and '+' modes are not simulated."""
-        path = str(file)
+        path = self._key(file)
         self.opened.append((path, mode))
         enc = encoding or 'utf-8'     # the simulated platform default
         binary = 'b' in mode
@@ -208,6 +254,9 @@ class SimFS:
         if binary and (encoding is not None or newline is not None or errors is not None):
             raise ValueError("binary mode doesn't take an encoding, errors or newline argument")
         if kind == 'r':
+            if path not in self.files and self._root is not None and os.path.isfile(self.real(path)):
+                with open(self.real(path), 'rb') as fh_:       # created outside the shadowed open
+                    self.files[path] = fh_.read()
             if path not in self.files:
                 raise FileNotFoundError(errno.ENOENT, 'No such file (simulated)', path)
             if binary:
@@ -233,5 +282,18 @@ class SimFS:
             return io.TextIOWrapper(buf, encoding=enc, newline=newline, errors=errors)
         raise ValueError(f'SimFS: mode {mode!r} not simulated')
 
+    def exists(self, path) -> bool:
+        path = self._key(path)
+        return path in self.files or (self._root is not None and os.path.exists(self.real(path)))
+
     def durable(self, path) -> bytes:
-        return bytes(self.files[path])
+        """What is on the (simulated) disk under *path*: the durable bytes of the simulated device if the file was
+        last written through the shadowed open, else the content of the real scratch file."""
+        path = self._key(path)
+        if path in self.writers or self._root is None or not os.path.exists(self.real(path)):
+            return bytes(self.files[path])
+        with open(self.real(path), 'rb') as fh:
+            data = fh.read()
+        if data != bytes(self.files.get(path, b'')):
+            self.k.hit('probe.file_written_outside_the_open_seam')
+        return data
